@@ -624,6 +624,16 @@ func streamPairs(w *W, rng *rand.Rand, tier string) {
 		// unrelated random pair
 		pairDo(w, rng, genAnyShape(rng, lim, int64(rng.Intn(4))), genAnyShape(rng, lim, int64(rng.Intn(4))), sc, false)
 	}
+	// polygons with several holes (nested bounding boxes), B with holes; large indexed rings
+	nm, nb := 700, 40
+	if tier == "thorough" {
+		nm, nb = 8000, 400
+	}
+	if w.pairTag == 52 {
+		nm, nb = nm/5, nb/4
+	}
+	streamMultiHole(w, rng, nm)
+	streamBigIndexed(w, rng, nb)
 	// collinear horizontal line families for line x line containment (spanning, nested, stray)
 	m := 3000
 	if tier == "thorough" {
